@@ -519,6 +519,14 @@ def oracle(res: dict) -> list[dict]:
                 fails.append({"clause": "final_config_equals_config_used", "selector": None,
                               "detail": "training_config.yaml differs from the live configuration at exit at "
                                         + ", ".join(d[:8])})
+            # the configuration actually used includes the tracking run it logged to
+            ids = res.get("wandb_run_ids") or []
+            if spec["use_wandb"] and ids:
+                rid = get_path(fin, ("trainer_config", "wandb", "run_id"))
+                if rid is KeyError or rid not in ids:
+                    fails.append({"clause": "final_config_records_tracking_run", "selector": None,
+                                  "detail": f"tracking on, run(s) {ids} were opened, but training_config.yaml has "
+                                            f"run_id = {None if rid is KeyError else rid!r}"})
     # (o4) checkpoint iff requested (a run that reached fit)
     if res.get("outcome") == "ok" or injected or f15_crash:
         has = bool(res.get("ckpt_files"))
